@@ -61,8 +61,37 @@ func init() {
 		if fd := ex.fn(crel, "Cache", "Exec"); fd != nil {
 			ss := stmtStrings(ex, fd.Body)
 			ex.setBool("c10ExecSetsId", contains(ss, "if cachedResp != nil { c.hitTotal.Inc() cachedResp.Id = q.Id qCtx.SetResponse(cachedResp) }") &&
-				contains(ss, "if r := qCtx.R(); r != nil && cachedResp != r { saveRespToCache(msgKey, r, c.backend, c.args.LazyCacheTTL) c.updatedKey.Add(1) }"), true,
+				contains(ss, "rBefore := qCtx.R()") && indexOf(ss, "rBefore := qCtx.R()")+1 == indexOf(ss, "err := next.ExecNext(ctx, qCtx)") && contains(ss, "if r := qCtx.R(); r != nil && rBefore != r { saveRespToCache(msgKey, r, c.backend, c.args.LazyCacheTTL) c.updatedKey.Add(1) }"), true,
 				"Exec: a hit gets the id of the query it answers; a response that is not the served hit is stored through saveRespToCache")
+		}
+		if fd := ex.fn(crel, "Cache", "Exec"); fd != nil {
+			// a query that misses walks the rest of the chain itself, with its own query context, and keeps what that produced:
+			// the only response the plugin itself sets is the (deep-copied) hit; Exec has no closures / goroutines through which
+			// another in-flight query's response could be reached (no singleflight on the miss path)
+			ss := stmtStrings(ex, fd.Body)
+			closures := 0
+			ast.Inspect(fd.Body, func(n ast.Node) bool {
+				switch n.(type) {
+				case *ast.FuncLit, *ast.GoStmt:
+					closures++
+				}
+				return true
+			})
+			setters := 0
+			for _, rel := range []string{urel, crel} {
+				if f := ex.file(rel); f != nil {
+					ast.Inspect(f, func(n ast.Node) bool {
+						if ce, ok := n.(*ast.CallExpr); ok {
+							if se, ok := ce.Fun.(*ast.SelectorExpr); ok && se.Sel.Name == "SetResponse" {
+								setters++
+							}
+						}
+						return true
+					})
+				}
+			}
+			ex.setBool("c10MissPrivate", countStr(ss, "err := next.ExecNext(ctx, qCtx)") == 1 && closures == 0 && setters == 1 && countStr(ss, "qCtx.SetResponse(cachedResp)") == 1, true,
+				"Exec on a miss: the query itself runs next.ExecNext(ctx, qCtx) on its own context (no closure, no goroutine, no singleflight in Exec); the only SetResponse call of the cache plugin is the one that sets the deep-copied hit")
 		}
 		if fd := ex.fn(crel, "Cache", "doLazyUpdate"); fd != nil {
 			ss := stmtStrings(ex, fd.Body)
